@@ -2,6 +2,7 @@ package sim
 
 import (
 	"fmt"
+	"regexp"
 	"strings"
 
 	"github.com/jhump/grpctunnel"
@@ -281,10 +282,19 @@ func OracleHung(prop string) func(w *World, h *History) {
 // holFromStacks looks for the head-of-line witness in a stack dump.
 func holFromStacks(stacks string) string {
 	if strings.Contains(stacks, "noFlowControlReceiver") && strings.Contains(stacks, ".accept(") {
+		// The known limitation of revision zero is a receive loop waiting for an
+		// application that is not reading. Once anybody has tried to end that
+		// stream (close / cancel of the receiver), accept must let go at once:
+		// a goroutine still inside close at a stall is a different failure.
+		if rev0CloseRE.MatchString(stacks) {
+			return "rev0-receiver-close-blocked-behind-accept"
+		}
 		return "recv-loop-blocked-in-rev0-accept"
 	}
 	return "no"
 }
+
+var rev0CloseRE = regexp.MustCompile(`noFlowControlReceiver\[[^\]]*\]\)\.(close|cancel)`)
 
 //go:norace
 func (w *World) noteStream(rpc int, vs *grpctunnel.VerifStream) {
